@@ -522,6 +522,7 @@ int main(int argc, char **argv) {
         tasks.push_back({&c, type, field});
       }
     }
+  Watchdog watchdog(R, A, "C16:voronoi");
   bool cut = false;
 #pragma omp parallel
   {
@@ -540,6 +541,7 @@ int main(int argc, char **argv) {
 #pragma omp critical
     ST.merge(st);
   }
+  watchdog.stop();
   if (cut || R.out_of_time())
     R.hit_deadline("Voronoi tasks incomplete");
   R.evaluations = ST.positions + ST.ngb + ST.rays + ST.cells;
